@@ -259,7 +259,7 @@ func init() {
 			}
 		}
 		for i, n := range it.Tok.TypeMap {
-			if im.TokId(i) != n {
+			if jsonSafe(im.TokId(i)) != n {
 				emit(&Out{Item: it.ID, Kind: "inconsistent", What: fmt.Sprintf("TokMap.Id(%d)=%q but the reader saw %q", i, im.TokId(i), n)})
 				return
 			}
